@@ -147,11 +147,11 @@ where
         let file = file.into();
         self.working_dir = file.parent().unwrap().to_path_buf();
         let ptr = self.environment.borrow_mut().get_ops_for_path(&file)?;
-        // The one output per file rule is per evaluation of the file. It may
-        // have been imported by a file built earlier in this same invocation.
-        self.environment
-            .borrow_mut()
-            .reset_out_lock_for_path(&file);
+        // The one output per file rule is per build of an entry file. This
+        // file may have been imported by a file built earlier in this same
+        // invocation, and so may a library whose module writes an output
+        // when this file instantiates it.
+        self.environment.borrow_mut().out_lock.clear();
         let eval_result = self.eval_ops(ptr, Some(file.clone()));
         match eval_result {
             Ok(_) => {
